@@ -438,6 +438,11 @@ def compare(ctx, w, spec, trace, steps):
         if merr == 'BadOp':
             ctx.divergence('the model rejected a call the engine generated', hist(i), model=merr, impl=rerr); return
         if not m['keysOk']: ctx.count('model:keysOk-false')
+        # the hypotheses of C14_commit_loses_no_insert, evaluated on every visited state
+        if not m.get('queueOk', True) or not m.get('inv', True):
+            ctx.count('model:queue-or-index-invariant-false')
+            if op['k'] != 'fetch' or rerr != 'TransactionIntegrityError':
+                ctx.divergence('a visited model state violates the hypotheses of C14_commit_loses_no_insert', hist(i), model={'queueOk': m.get('queueOk'), 'inv': m.get('inv')}); return
         if (merr or None) != (rerr or None):
             ctx.divergence('outcome of the call differs', hist(i), model=merr, impl=[rerr, res.get('msg')]); return
         mc = sorted(m['committed']); rc = sorted(snap['committed'])
